@@ -153,10 +153,20 @@ struct Array {
 
     void operator+=(Type_T &&item) {
         if (Size() == Capacity()) {
-            resize((Capacity() | (Capacity() == 0)) * SizeT{2});
+            // 'item' may live in this array: move it out before the old storage is released.
+            constexpr SizeT32 type_size = sizeof(Type_T);
+            Type_T           *src       = Storage();
+
+            setCapacity((Capacity() | (Capacity() == 0)) * SizeT{2});
+
+            Type_T *des = allocate();
+            Memory::Initialize((des + Size()), Memory::Move(item));
+            Memory::Copy(des, src, (Size() * type_size));
+            Memory::Deallocate(src);
+        } else {
+            Memory::Initialize((Storage() + Size()), Memory::Move(item));
         }
 
-        Memory::Initialize((Storage() + Size()), Memory::Move(item));
         ++index_;
     }
 
